@@ -26,6 +26,7 @@ type Session struct {
 	Kind      string     `json:"kind"`
 	Sector    int        `json:"sector"`
 	FileChunk int        `json:"file_chunk,omitempty"`
+	StdoutTTY bool       `json:"stdout_tty,omitempty"` // stdout is a terminal (or /dev/null): a character device
 	Files     []File     `json:"files"`
 	Dirs      []string   `json:"dirs,omitempty"`
 	Procs     []ProcSpec `json:"procs"`
@@ -103,7 +104,7 @@ func runSession(s Session, fs *simos.FS, withModel bool, stopAfterFault bool) *s
 		if withModel {
 			r.Exp = append(r.Exp, cliModel(p.Bin, p.Arg0, p.Argv, fs, in))
 		}
-		res := runProc(fs, p, IOCfg{s.Sector, s.FileChunk}, prev)
+		res := runProc(fs, p, IOCfg{s.Sector, s.FileChunk, s.StdoutTTY}, prev)
 		r.Res = append(r.Res, res)
 		r.FSPost = append(r.FSPost, fs.Clone())
 		r.Log = append(r.Log, eventLog(i, res)...)
@@ -485,6 +486,18 @@ func checkC14Fault(c C14Case, base *sessRun, info *caseInfo) (*Violation, []stri
 		// a truncated stream is a different, legitimate input, not a failure
 		// the process can notice: whatever it wrote legitimately stays
 		return nil, log, info
+	}
+	if fo := parseArgv(p.Argv); fo.output != "" {
+		for _, in := range fo.args {
+			if in == fo.output {
+				// the process was asked to overwrite its own input; after a
+				// failed write that input is gone and a retry cannot be the same run
+				return nil, log, info
+			}
+		}
+		if p.Stdin != nil && p.Stdin.From == "file:"+fo.output {
+			return nil, log, info
+		}
 	}
 	// invariant 6: once faults stop, the same session on the disk the failed
 	// attempt left behind gives exactly the fault-free result
